@@ -1051,6 +1051,15 @@ func (c *codecV2) decodeRegionError(regionError *errorpb.Error) (*errorpb.Error,
 		errInfo.CurrentRegions = decodedRegions
 	}
 
+	if errInfo := regionError.BucketVersionNotMatch; errInfo != nil && len(errInfo.Keys) > 0 {
+		// The bucket keys are region keys: memcomparable-encoded and keyspace-prefixed,
+		// exactly like the bucket keys PD returns.
+		errInfo.Keys, err = c.DecodeBucketKeys(errInfo.Keys)
+		if err != nil {
+			return nil, err
+		}
+	}
+
 	return regionError, nil
 }
 
